@@ -83,12 +83,17 @@ def verify_one(job):
         timeout = int(os.environ.get("PYVC_TIMEOUT_MS", 0)) or c.timeout or job.get("timeout_ms", 20000)
         from .symexec import Obligation
 
-        def conjuncts(g):
+        def conjuncts(g, depth=0):
             if z3.is_and(g):
                 out = []
                 for ch in g.children():
-                    out.extend(conjuncts(ch))
+                    out.extend(conjuncts(ch, depth))
                 return out
+            # a defined predicate (spec function) whose definition is a conjunction: prove the conjuncts of its definition
+            if depth < 3 and z3.is_app(g) and g.decl().kind() == z3.Z3_OP_UNINTERPRETED and g.num_args() > 0:
+                ax = v.axioms.get(g.sexpr())
+                if ax is not None and z3.is_eq(ax) and z3.is_and(ax.arg(1)):
+                    return conjuncts(ax.arg(1), depth + 1)
             return [g]
 
         split = []
